@@ -167,6 +167,73 @@ theorem Frame.setWrOpt {n0 h0 h} (f : Frame true n0 h0 h) (o : Option Nat) : Fra
   | none => exact f
   | some a => exact f.setWr a
 
+theorem freezeObj_buf (h : Heap) (x a : Nat) : ((h.freezeObj x).arr a).buf = (h.arr a).buf := by
+  unfold Heap.freezeObj
+  split
+  · rfl
+  · show ((((h.setWrOpt (h.obj x).vals).setWrOpt (h.obj x).mask)).arr a).buf = _
+    rw [setWrOpt_buf, setWrOpt_buf]
+
+theorem freezeObj_next (h : Heap) (x : Nat) : (h.freezeObj x).next = h.next := by
+  unfold Heap.freezeObj
+  split
+  · rfl
+  · cases hv : (h.obj x).vals <;> cases hm : (h.obj x).mask <;> rfl
+
+theorem Frame.freezeObj {n0 h0 h} (f : Frame true n0 h0 h) (x : Nat) : Frame true n0 h0 (h.freezeObj x) := by
+  unfold Heap.freezeObj
+  split
+  · exact f
+  · have f1 := (f.setWrOpt (h.obj x).vals).setWrOpt (h.obj x).mask
+    refine ⟨f1.buf, f1.uname, f1.arrBuf, f1.arrWr, ?_, ?_⟩
+    · intro l hl
+      by_cases hlx : l = x
+      · subst hlx
+        have := f1.objF l hl
+        simpa using this
+      · have := f1.objF l hl
+        simpa [hlx] using this
+    · intro l hl
+      refine ⟨fun h => absurd h (by decide), ?_⟩
+      by_cases hlx : l = x
+      · subst hlx; intro _; simp
+      · have := (f1.objRo l hl).2
+        simpa [hlx] using this
+
+theorem freezeAll_buf (xs : List Nat) : ∀ (h : Heap) (a : Nat), ((h.freezeAll xs).arr a).buf = (h.arr a).buf := by
+  induction xs with
+  | nil => intro h a; rfl
+  | cons x xs ih => intro h a; simp only [Heap.freezeAll]; rw [ih, freezeObj_buf]
+
+theorem freezeAll_next (xs : List Nat) : ∀ (h : Heap), (h.freezeAll xs).next = h.next := by
+  induction xs with
+  | nil => intro h; rfl
+  | cons x xs ih => intro h; simp only [Heap.freezeAll]; rw [ih, freezeObj_next]
+
+theorem Frame.freezeAll {n0 h0} (xs : List Nat) : ∀ {h}, Frame true n0 h0 h → Frame true n0 h0 (h.freezeAll xs) := by
+  induction xs with
+  | nil => intro h f; exact f
+  | cons x xs ih => intro h f; exact ih (f.freezeObj x)
+
+theorem freezeTree_buf (h : Heap) (x a : Nat) : ((h.freezeTree x).arr a).buf = (h.arr a).buf := by
+  unfold Heap.freezeTree
+  split
+  · rfl
+  · rw [freezeAll_buf, freezeObj_buf]
+
+theorem freezeTree_next (h : Heap) (x : Nat) : (h.freezeTree x).next = h.next := by
+  unfold Heap.freezeTree
+  split
+  · rfl
+  · rw [freezeAll_next, freezeObj_next]
+
+/-- marking an object and all its derivatives read-only keeps the relaxed frame -/
+theorem Frame.freezeTree {n0 h0 h} (f : Frame true n0 h0 h) (x : Nat) : Frame true n0 h0 (h.freezeTree x) := by
+  unfold Heap.freezeTree
+  split
+  · exact f
+  · exact Frame.freezeAll _ (f.freezeObj x)
+
 theorem Inv.relaxedHeap {n0 h0 s t} (i : Inv true n0 h0 s t) (h' : Heap) (f : Frame true n0 h0 h')
     (hnext : h'.next = s.h.next) (hbuf : ∀ a, (h'.arr a).buf = (s.h.arr a).buf) :
     Inv true n0 h0 { s with h := h' } t := by
@@ -440,29 +507,7 @@ theorem step_inv {rx n0 h0 s t t'} (A : Args) (e : Eff) (i : Inv rx n0 h0 s t) (
       simp only [step]
       split
       · rename_i x hx
-        split
-        · exact i
-        · rename_i hro
-          have f1 := (i.frame.setWrOpt (s.h.obj x).vals).setWrOpt (s.h.obj x).mask
-          refine i.relaxedHeap _ ?_ ?_ ?_
-          · refine ⟨f1.buf, f1.uname, f1.arrBuf, f1.arrWr, ?_, ?_⟩
-            · intro l hl
-              by_cases hlx : l = x
-              · subst hlx
-                have := f1.objF l hl
-                simpa using this
-              · have := f1.objF l hl
-                simpa [hlx] using this
-            · intro l hl
-              refine ⟨fun h => absurd h (by decide), ?_⟩
-              by_cases hlx : l = x
-              · subst hlx; intro _; simp
-              · have := (f1.objRo l hl).2
-                simpa [hlx] using this
-          · cases hv : (s.h.obj x).vals <;> cases hm : (s.h.obj x).mask <;> rfl
-          · intro a
-            show ((((s.h.setWrOpt (s.h.obj x).vals).setWrOpt (s.h.obj x).mask)).arr a).buf = _
-            rw [setWrOpt_buf, setWrOpt_buf]
+        exact i.relaxedHeap _ (i.frame.freezeTree x) (freezeTree_next s.h x) (fun a => freezeTree_buf s.h x a)
       · exact i.fail _
     · cases ht
   | raiseIf n =>
